@@ -41,7 +41,7 @@ def run_c14(tier):
     if len(cases) < 500:
         raise vlib.Undecided('ChaChaPRG enumeration produced %d cases' % len(cases))
     vh = vlib.build_vh()
-    reps = 1 if tier == 'quick' else 3
+    reps = 1 if tier == 'quick' else 10
     cp = os.path.join(vlib.subdir('scripts'), 'prg.ndjson')
     n = 0
     with open(cp, 'w') as f:
